@@ -637,8 +637,9 @@ impl Rewriter {
       mir::Type::Int32 | mir::Type::Int31 => false,
       mir::Type::Id(type_id) => {
         let Some(type_def) = self.specialized_type_definitions.get(type_id) else {
-          // Recursive type currently being processed - must be heap-allocated (pointer).
-          return self.specialized_type_definition_names.contains(type_id);
+          // Recursive type currently being processed: its layout is not known yet. It may itself
+          // turn out to have int31 or unboxed variants, so it is not known to always be a pointer.
+          return false;
         };
         match &type_def.mappings {
           // Structs are always pointers.
